@@ -281,7 +281,9 @@ func (t *collationSortedTree[K, V]) Prefix(p K) iter.Seq2[K, V] {
 
 	root := t.root
 	if t.root.pointer != nil {
-		root = lowestCommonParent[V, *collateLeafNode[V]](root, colKey)
+		// only the primary weights of p are a prefix of the sort keys of
+		// the strings starting with p
+		root = lowestCommonParent[V, *collateLeafNode[V]](root, primaryWeights(colKey))
 	}
 
 	hasPrefix := func(k K, v V) bool {
@@ -289,6 +291,21 @@ func (t *collationSortedTree[K, V]) Prefix(p K) iter.Seq2[K, V] {
 		return bytes.HasPrefix(leafKeyS, keyS)
 	}
 	return filter(root, hasPrefix, t.restoreKey)
+}
+
+// primaryWeights returns the leading part of a collation sort key which
+// encodes the primary weights (2 bytes each, 3 when the first has its high
+// bit set), up to the first level separator.
+func primaryWeights(colKey []byte) []byte {
+	i := 0
+	for i+1 < len(colKey) && (colKey[i] != 0 || colKey[i+1] != 0) {
+		if colKey[i]&0x80 != 0 {
+			i += 3
+		} else {
+			i += 2
+		}
+	}
+	return colKey[:min(i, len(colKey))]
 }
 
 func (t *collationSortedTree[K, V]) Range(start, end K) iter.Seq2[K, V] {
